@@ -31,7 +31,7 @@ func init() {
 
 func runC08(c *Ctx) {
 	r := c.R
-	r.Rule("R08-inverse", "for each move kind, PopMove composed after a successful PushMove restores turn, ply, moves, current, the per-hash counter, has-castled flags, clears the forward link and reports Undecided; it returns the move that was pushed", 18)
+	r.Rule("R08-inverse", "for each move kind, PopMove composed after a successful PushMove restores turn, ply, moves, current, the per-hash counter, has-castled flags, clears the forward link and restores the game result the board reported before the move (claimable draws included); it returns the move that was pushed", 18)
 	r.Rule("R08-fork", "Fork initialises every field of Board, allocates a fresh repetition map filled from the original and a fresh head node that shares only the immutable past", 4)
 	r.Rule("R08-nomut", "fields of history nodes are written only while the node is being created, except the forward-move link of the current node", 1)
 
@@ -47,7 +47,6 @@ func runC08(c *Ctx) {
 func c08Inverse(c *Ctx, g *gameModel) {
 	r := c.R
 	where := c.pos(g.pop.Pos())
-	undecidedOutcome, _ := constVal(c.P, "pkg/board", "Undecided")
 	for _, kind0 := range []string{"Normal", "Push", "Jump", "EnPassant", "QueenSideCastle", "KingSideCastle", "Capture", "Promotion", "CapturePromotion"} {
 		for _, col := range bothColours {
 			kind := kind0 + " turn=" + col
@@ -100,10 +99,10 @@ func c08Inverse(c *Ctx, g *gameModel) {
 							// result: Undecided with empty reason
 							switch k {
 							case "&.result(b)":
-								ov, _ := structField(fin, "Outcome")
-								rs, _ := structField(fin, "Reason")
-								if v, ok := absint.ConstInt(ov); !ok || v != undecidedOutcome || vstrOf(rs) != `""` {
-									bad = "result after take-back is " + vstrOf(fin) + ", expected Undecided"
+								// the result the board had before the push, exactly (a claimable draw of the position
+								// the search started from is part of the game state it is handed back in)
+								if init == nil || !sameUnder(o.St, fin, init) {
+									bad = "result after take-back is " + vstrOf(fin) + ", expected the result the board reported before the move (" + vstrOfNil(init) + ")"
 								}
 							default:
 								// field-wise stores made by the push must have been overwritten by a whole-struct store
@@ -114,6 +113,12 @@ func c08Inverse(c *Ctx, g *gameModel) {
 						case strings.HasPrefix(k, "&[](&.hasCastled(b),"):
 							if b2, ok := absint.ConstBool(fin); !(ok && !b2) && !sameUnder(o.St, fin, init) {
 								bad = k + " left as " + vstrOf(fin)
+							}
+						case strings.HasSuffix(k, "(.current(b))") && isResultSlot(k, o.St, g):
+							// scratch slot of a node that is only meaningful while the node is not current
+							// (the result saved for the take-back): empty or untouched
+							if vstrOf(fin) != vstrOf(absint.Zero(g.bm.resultT)) && (init == nil || !sameUnder(o.St, fin, init)) {
+								bad = "saved-result slot of the restored node is " + vstrOf(fin) + ", expected empty"
 							}
 						case k == "&.next(.current(b))":
 							if vstrOf(fin) != vstrOf(absint.Zero(g.bm.moveT)) {
@@ -147,6 +152,23 @@ func c08Inverse(c *Ctx, g *gameModel) {
 			}
 		}
 	}
+}
+
+func vstrOfNil(v absint.Value) string {
+	if v == nil {
+		return "?"
+	}
+	return vstrOf(v)
+}
+
+// isResultSlot: the address key names a field of the head node whose type is the game result.
+func isResultSlot(key string, st *absint.State, g *gameModel) bool {
+	addr, ok := st.SymAddr[key].(*absint.Sym)
+	if !ok || addr.T == nil || g.bm.resultT == nil {
+		return false
+	}
+	pt, ok := addr.T.Underlying().(*types.Pointer)
+	return ok && types.Identical(pt.Elem(), g.bm.resultT)
 }
 
 // sameUnder decides a == b under the path's facts.
@@ -331,6 +353,54 @@ func fieldByName(st *types.Struct, name string) *types.Var {
 	return nil
 }
 
+// isHeadNode: v is the board's current node (a load of the board's *node field).
+func isHeadNode(v ssa.Value, g *gameModel) bool {
+	u, ok := v.(*ssa.UnOp)
+	if !ok || u.Op != token.MUL {
+		return false
+	}
+	fa, ok := u.X.(*ssa.FieldAddr)
+	if !ok {
+		return false
+	}
+	n := namedOf(fa.X.Type())
+	return n != nil && types.Identical(n, g.boardT)
+}
+
+// nodeFieldPrivate: every read of the node field is in PushMove or PopMove.
+func nodeFieldPrivate(c *Ctx, nodeT *types.Named, field string, g *gameModel) bool {
+	st := nodeT.Underlying().(*types.Struct)
+	idx := -1
+	for i := 0; i < st.NumFields(); i++ {
+		if st.Field(i).Name() == field {
+			idx = i
+		}
+	}
+	if idx < 0 {
+		return false
+	}
+	for _, fn := range c.P.AllFuncs {
+		if fn == g.push || fn == g.pop {
+			continue
+		}
+		for _, b := range fn.Blocks {
+			for _, ins := range b.Instrs {
+				switch x := ins.(type) {
+				case *ssa.FieldAddr:
+					if n := namedOf(x.X.Type()); n != nil && n.Obj() == nodeT.Obj() && x.Field == idx && !onlyStoredTo(x) {
+						return false
+					}
+				case *ssa.Field:
+					if n := namedOf(x.X.Type()); n != nil && n.Obj() == nodeT.Obj() && x.Field == idx {
+						return false
+					}
+				}
+			}
+		}
+	}
+	return true
+}
+
 func c08NoMut(c *Ctx, g *gameModel) {
 	r := c.R
 	nodeT := c.namedType("pkg/board", "node")
@@ -349,6 +419,11 @@ func c08NoMut(c *Ctx, g *gameModel) {
 			continue // literal under construction
 		}
 		if fs.Field == "next" && (fs.Fn == g.push || fs.Fn == g.pop) {
+			continue
+		}
+		// a slot of the head node that only push/pop ever read (the result saved for the take-back) is
+		// scratch space of the owning board: forks copy the head node, and nothing else looks at it
+		if (fs.Fn == g.push || fs.Fn == g.pop) && !fs.Whole && isHeadNode(fs.Base, g) && nodeFieldPrivate(c, nodeT, fs.Field, g) {
 			continue
 		}
 		what := fs.Field
